@@ -539,13 +539,41 @@ def _import_variants(qp):
         empty_body_ok = False
     else:
         raise TranslatorError(f"_initialize_pass: closing brace of a gate definition not recognised: {cb}")
+    # _initialize_pass: a statement of a gate body (checked when the definition is read?)
+    stm = [n for n in ast.walk(ip) if isinstance(n, ast.If) and U(n.test) == "command[0] in self.gate_names"]
+    if len(stm) != 1:
+        raise TranslatorError("_initialize_pass: branch of a body statement not recognised")
+    sb = [U(x) for x in stm[0].body]
+    head_sb = ["name = command[0]", "gate_args, gate_regs = _gate_processor(command)"]
+    app = "curr_gate.gates_inside.append([name, gate_args, gate_regs])"
+    fchk = [n for n in qp.body if isinstance(n, ast.FunctionDef) and n.name == "_check_body_call"]
+    if sb == head_sb + ["gate_added = self.qasm_gates[name]", app]:
+        body_checked = False
+    elif sb == head_sb + ["self._check_body_call(curr_gate, name, gate_args, gate_regs)", app]:
+        want = [
+            "for reg in gate_regs:\n    if reg not in curr_gate.gate_regs:\n        raise ValueError('QASM: {} is not a "
+            "qubit argument of gate {}'.format(reg, curr_gate.name))",
+            "if len(set(gate_regs)) != len(gate_regs):\n    raise ValueError('QASM: a qubit is used twice in one statement')",
+            "if name in _GATE_SIGNATURES:\n    expected = _GATE_SIGNATURES[name]\nelse:\n    gate = self.qasm_gates[name]\n"
+            "    expected = (len(gate.gate_args), len(gate.gate_regs))",
+            "_check_arity(name, len(gate_args), len(gate_regs), expected)",
+            "params = [arg.strip() for arg in curr_gate.gate_args]",
+            "for arg in gate_args:\n    if '^' in arg or '**' in arg:\n        raise NotImplementedError('QASM: the power "
+            "operator is not supported in expressions.')\n    for ident in re.findall('(?<![\\\\w.])[A-Za-z_]\\\\w*', arg):\n"
+            "        if ident != 'pi' and ident not in params:\n            raise NameError('QASM: {} is not a parameter of "
+            "gate {}'.format(ident, curr_gate.name))"]
+        if len(fchk) != 1 or [U(x) for x in fchk[0].body[1:]] != want:
+            raise TranslatorError("_check_body_call: body not recognised")
+        body_checked = True
+    else:
+        raise TranslatorError(f"_initialize_pass: statement of a gate body not recognised: {sb}")
     if not (fp_barrier == rp_barrier == ip_barrier):
         raise TranslatorError("barrier statements: _initialize_pass, _final_pass and _regs_processor do not belong to "
                               "the same variant")
     if rp_empty != ga_empty:
         raise TranslatorError("empty registers: _regs_processor and _gate_add do not belong to the same variant")
     return {"if_skip": if_skip, "if_rev": if_rev, "barrier_checked": fp_barrier, "empty_reg_ok": rp_empty,
-            "empty_body_ok": empty_body_ok}
+            "empty_body_ok": empty_body_ok, "body_checked": body_checked}
 
 
 # ------------------------------------------------------------------------------------------
@@ -623,6 +651,8 @@ def render():
     A("/-- `_regs_processor` / `_gate_add`: a statement on empty registers has no instance (arity still checked) -/")
     A("def emptyRegOk : Bool := " + ("true" if i["empty_reg_ok"] else "false"))
     A("")
+    A("/-- `_initialize_pass` checks every statement of a gate body when the definition is read (`_check_body_call`) -/")
+    A("def bodyChecked : Bool := " + ("true" if i["body_checked"] else "false"))
     A("/-- `_initialize_pass` accepts a gate definition without any gate statement in its body (the identity) -/")
     A("def emptyBodyOk : Bool := " + ("true" if i["empty_body_ok"] else "false"))
     A("")
